@@ -192,6 +192,9 @@ pub enum Step {
     },
     /// token refresh: a node unseals token `from` and seals the object that came out of it again
     /// (optionally with new claims / assertion), giving token `tok`
+    /// seal, then unseal the token object that came out without going through text, with `ukey` and
+    /// `aad_unseal` (the right ones or not)
+    ObjectRoundtrip { node: usize, purpose: Purp, skey: usize, ukey: usize, msg: Bytes, footer: Bytes, aad_seal: Bytes, aad_unseal: Bytes, rng: RngSpec },
     Reseal { tok: usize, from: usize, node: usize, ukey: usize, skey: usize, claims: Option<ClaimsSpec>, aad: Bytes, rng: RngSpec, now_ns: Ns },
     Wrap {
         blob: usize,
@@ -331,6 +334,7 @@ impl Step {
             Step::Deliver { .. } => "Deliver",
             Step::RefSeal { .. } => "RefSeal",
             Step::Reseal { .. } => "Reseal",
+            Step::ObjectRoundtrip { .. } => "ObjectRoundtrip",
             Step::Wrap { .. } => "Wrap",
             Step::Unwrap { .. } => "Unwrap",
             Step::RefWrap { .. } => "RefWrap",
